@@ -1451,12 +1451,14 @@ struct Engine
             auto cr = cv[i];
             const Elem a = LS::read(r);
             ob << to_string(a);
-            if (a != me)
-            {
+            const bool value_ok = a == me;
+            if (!value_ok)
                 report("VAL", "values", "operator[]", "element %zu reads %s through operator[], model %s", i,
                        to_string(a).c_str(), to_string(me).c_str());
-                continue;  // do not pile up follow-up reports for this element
-            }
+            // (the other access paths are only compared when operator[] agrees - no piles of follow-up reports -
+            //  but the layout monitors below always run: a wrong count or position is their business)
+            if (value_ok)
+            {
             if (LS::read(cr) != me) report("VAL", "values", "const operator[]", "element %zu differs through const operator[]", i);
             if (LS::read(*it) != me) report("VAL", "values", "iterator", "element %zu differs through forward iteration", i);
             if (LS::read(*cit) != me) report("VAL", "values", "const_iterator", "element %zu differs through const iteration", i);
@@ -1468,6 +1470,7 @@ struct Engine
             if (i == 0 && LS::read(vv.front()) != me) report("VAL", "values", "front", "front() differs from the model");
             if (i + 1 == n && LS::read(cv.back()) != me) report("VAL", "values", "back", "back() differs from the model");
             if (i + 1 == n && LS::read(vv.back()) != me) report("VAL", "values", "back", "back() differs from the model");
+            }
             if constexpr (N == 2)
             {
                 auto&& [s0, s1] = r;
@@ -2132,7 +2135,7 @@ struct Engine
                 for (int b : {0, prm.bmax})
                 {
                     if (LS::NV == 0 && b != 0) continue;
-                    if (small && LS::NV != 0 && b == 0 && n != 0) continue;
+                    if (small && prm.mode != "pair" && LS::NV != 0 && b == 0 && n != 0) continue;
                     out.push_back(mk(O_NEW, 0, n, b, LS::NF > 0 ? f[0] : 0, LS::NF > 1 ? f[1] : 0, 0));
                 }
             }
